@@ -22,7 +22,7 @@ from . import common
 
 PROP = "C12"
 GENERATED = True
-LEAN_MODULES = ["MiciVerif.Props.C12"]
+LEAN_MODULES = ["MiciVerif.Props.C12", "MiciVerif.Props.C12T"]
 LEAN_EXTRA = ["MiciVerif.Model.Solvers", "MiciVerif.Proto", "MiciVerif.Generated.Errors"]
 
 
@@ -287,6 +287,10 @@ EXC_KINDS = ["value", "linalg", "milinalg"]
 
 
 def chain_section(ctx, rng):
+    # a broken proof obligation escalates the failing-input search to the exhaustive plan
+    escalate = (not ctx.build_ok) or any(not o["ok"] for o in ctx.obligations)
+    if escalate:
+        ctx.count("search_escalated_to_exhaustive")
     plan = []
     for cfg in CONFIGS:
         inj = Injector()
@@ -297,10 +301,11 @@ def chain_section(ctx, rng):
                 if target in ("constr", "jacob_constr", "metric_diagonal_func", "vjp_metric_diagonal_func"):
                     kinds += EXC_KINDS
                 for kind in kinds:
-                    ks = range(0, 40) if not ctx.quick else sorted({int(x) for x in rng.integers(0, 30, 2)})
+                    full = (not ctx.quick) or escalate
+                    ks = range(0, 40) if full else sorted({int(x) for x in rng.integers(0, 30, 2)})
                     for k in ks:
                         plan.append((cfg, tname, target, k, kind))
-    if ctx.quick:
+    if ctx.quick and not escalate:
         idx = rng.permutation(len(plan))[: 420]
         plan = [plan[i] for i in sorted(idx)]
     for cfg, tname, target, k, kind in plan:
